@@ -92,6 +92,13 @@ claim("C07", "exploration",
       "Trusted: generous real-time bounds; a case that misses a bound is run again and reported only if it fails twice (a flaky genuine defect may be missed, a loaded machine does not raise an alarm). The thread schedule is not controlled; a replay file reproduces the configuration only. A fault-free calibration pair must work first, otherwise the check exits 2 (no usable interface). Security-enabled configurations: see C16-C19.",
       "DESIGN.md section 2, C07")
 
+claim("C16", "exploration",
+      "round-trip and fault-injection property-based testing: generated protection configurations and plaintexts are encoded by the real crypto plugin, serialized to datagram bytes, altered (every byte position, field replacements, swaps between encodings, foreign key material, other addressee), parsed by the real RTPS parser and decoded; the oracle is the plaintext and a byte-region map derived from the DDS-Security wire layout",
+      "One sender and 1-3 receivers (real CryptographicBuiltin instances, keys exchanged through the real key factory / token calls) with RTPS, submessage and payload protection each NONE / SIGN / ENCRYPT, AES-128/256, origin authentication on/off. Payloads (all residues mod 4) travel in DATA (padded) or DATAFRAG framing, submessages and whole messages through Message::write / Message::read_from_buffer. "
+      "Violation: an untouched protected form is rejected or decodes differently at an addressed receiver; any alteration inside the authenticated bytes (transformation kind, key id, session id, IV, content, common MAC, the receiver's own MAC entry, RTPS header at message level) still decodes; any alteration at all decodes to different content; the prefix of another encoding, an encoding under other key material, or (with origin authentication) an encoding not carrying this receiver's MAC decodes.",
+      "Trusted: ring's AES-GCM; the region map (from the specification's wire layout) of what is authenticated. Alterations are single-byte XOR masks and whole-field replacements, not adaptive forgeries.",
+      "DESIGN.md section 2, C16")
+
 claim("C02", "exploration",
       "fault-injection property-based testing: generated fault plans (drop / duplicate / delay per datagram) over a bounded run of a real Writer and 1-2 real Readers, followed by fault-free rounds; liveness decided as a fixpoint test on a projection of the protocol state, plus a quietness check",
       "A generated fault plan decides the fate of every datagram (DATA, DATAFRAG, HEARTBEAT, GAP, ACKNACK, NACKFRAG) exchanged between a real reliable Writer and real reliable Readers during generated writes / heartbeat ticks / timer steps / cache cleanings. Then faults stop and rounds {heartbeat tick, deliver all, fire timers to quiescence} run. "
